@@ -362,7 +362,8 @@ MONITOR_PROPS = {
     "GcLeftGarbage": ["C05"],
     "LockLeft": ["C05"],
     "ReaderMutated": ["C07"],
-    "WrittenBlocksStat": ["C14"],
+    # informational only: the statements speak of what is written, not of what BackupStats says
+    "WrittenBlocksStat": [],
     "NotReused": ["C14"],
     "UnchangedWroteBlocks": ["C14"],
     "ListFailed": ["C08", "C12", "C15", "C03"],
